@@ -16,7 +16,7 @@ Node ops (one current node)
 * `{"op":"apply"}` → `{"ev":[…],"state":STATE}`
 * `{"op":"setver","v":n}` → `{"setver":["tooHigh",self,req] | ["tooLow",enabled,req] | ["queued",v]}`
 * `{"op":"dump"}` → `{"dump":null | {"enabled":e|null,"prev":ENTRY,"last":ENTRY}}` (remembered)
-* `{"op":"load","clear":bool}` → `{"state":STATE}` (loads the remembered dump into the current node)
+* `{"op":"load","clear":bool}` → `{"ev":[…],"state":STATE}` (loads the remembered dump into the current node)
 * `{"op":"compact"}` → `{"state":STATE}` (second phase of the compaction for the remembered dump)
 * `{"op":"restart","cls":CLS,"keepLog":bool}` → fresh node on code CLS (log and commit kept when `keepLog`)
 * `{"op":"state"}` → `{"state":STATE}`
@@ -101,6 +101,7 @@ def ev : Ev → Json
   | .wrongVer s r => Json.arr #[Json.str "wrongVer", nat s, nat r]
   | .unknownId i f => Json.arr #[Json.str "unknownId", nat i, nat f]
   | .blocked e s => Json.arr #[Json.str "blocked", nat e, nat s]
+  | .callbackOpen cb => Json.arr #[Json.str "cbOpen", nat cb]
 
 def tableJson (cls : ClassDef) (e : Nat) : Json :=
   Json.arr ((keys cls).filterMap fun k =>
@@ -174,7 +175,8 @@ def step (st : St) (j : Json) : Except String (St × Json) := do
     | none => throw "load: no dump"
     | some d =>
       let n := loadDump st.node d clear
-      return ({ st with node := n }, Json.mkObj [("state", state n)])
+      let evs := loadDumpEvents st.node d clear
+      return ({ st with node := n }, Json.mkObj [("ev", Json.arr (evs.map ev).toArray), ("state", state n)])
   | "compact" =>
     match st.dump with
     | none => throw "compact: no dump"
